@@ -315,13 +315,21 @@ def run_hist(ctx, spec):
             continue
         from kernel.term import Eq, Real
         seqs = []
-        for order in (('free', 'cond', 'free'), ('cond', 'free', 'cond')):
+        # 'cond': the premise is an assumption (c |- c); 'cond0': the premise is a proved fact without hypotheses
+        # (|- c), as a line of a proof state or a `sorry` premise is - a result obtained from it does not show the
+        # dependence in its hypotheses, so nothing about the result says that it may not be reused
+        for order in (('free', 'cond', 'free'), ('cond', 'free', 'cond'), ('free', 'cond0', 'free'), ('cond0', 'free', 'cond0')):
+            goal_fixed = rng.choice([None, None, Eq(t, P("x")), Eq(P("sqrt x"), P("x ^ (1 / 2)"))])
             for kind in order:
-                goal = rng.choice([Eq(t + Real(0), t), Eq(t, t), Eq(t * Real(1), t), Eq(t + Real(0), P("x")), Eq(t, P("x"))])
+                goal = goal_fixed if goal_fixed is not None else \
+                    rng.choice([Eq(t + Real(0), t), Eq(t, t), Eq(t * Real(1), t), Eq(t + Real(0), P("x")), Eq(t, P("x"))])
                 prem = []
                 if kind == 'cond':
                     c = P(rng.choice(cond_texts))
                     prem = [Thm(c, c)]
+                elif kind == 'cond0':
+                    c = P(rng.choice(cond_texts))
+                    prem = [Thm(c)]
                 try:
                     macro.eval(goal, prem)
                     ctx.count('hist_premise_calls_ok:' + kind)
